@@ -45,7 +45,12 @@ class GeckoSnapshot:
             # Match "Log version 9"
             (r"Log version (\d+)", self._re_log_version),
             # Match "['0x5', '0x1', ... '0x0']"
-            (r"\[('0x[0-9A-Fa-f]{1,2}'(?:, '0x[0-9A-Fa-f]{1,2}')*)\]", self._re_data),
+            # (only as the last thing on the line: the same text inside a logged
+            # datagram is payload, not a snapshot dump)
+            (
+                r"\[('0x[0-9A-Fa-f]{1,2}'(?:, '0x[0-9A-Fa-f]{1,2}')*)\]\s*$",
+                self._re_data,
+            ),
             #
             #   Connection set
             #
